@@ -18,8 +18,12 @@ impl StrengthReduction {
         }
     }
 
-    fn is_side_effect_free(expr: &Expression) -> bool {
-        matches!(expr, Expression::Literal(_) | Expression::Identifier(_))
+    /// Duplicating an operand is only sound for a number literal: an identifier can be bound to an
+    /// object (its `valueOf` would run twice) or to a `BigInt` (`x ** 2` throws a `TypeError`,
+    /// `x * x` does not).
+    fn is_number_literal(expr: &Expression) -> bool {
+        use boa_ast::expression::literal::LiteralKind;
+        matches!(expr, Expression::Literal(lit) if matches!(lit.kind(), LiteralKind::Int(_) | LiteralKind::Num(_)))
     }
 
     fn as_literal_int(expr: &Expression) -> Option<i32> {
@@ -73,7 +77,7 @@ impl StrengthReduction {
     fn try_reduce_exp(binary: &mut Binary) -> PassAction<Expression> {
         if let Some(exp_val) = Self::as_literal_int(binary.rhs())
             && exp_val == 2
-            && Self::is_side_effect_free(binary.lhs())
+            && Self::is_number_literal(binary.lhs())
         {
             let span = binary.span();
             let lhs = std::mem::replace(
